@@ -7,7 +7,11 @@ Trace == ndJsonDeserialize("trace.ndjson")
 NoDiv == [at |-> 0]
 tevars == <<evars, l, div, taint, devAll>>
 Has(ev, f) == f \in DOMAIN ev
-Norm(o) == [o EXCEPT !.utxo = Range(@), !.pool = Range(@)]
+(* poolseq (the order in which the pool yields its transactions) is not part of the compared record: it is judged by
+   SeqOK - every transaction comes after the pending transactions whose outputs or key versions it consumes *)
+Norm(o) == [f \in DOMAIN o \ {"poolseq"} |-> IF f \in {"utxo", "pool", "poold"} THEN Range(o[f]) ELSE o[f]]
+SeqOK(o) == "poolseq" \notin DOMAIN o \/ \A i, j \in DOMAIN o.poolseq :
+               (i < j /\ o.poolseq[i] \in AllTxs /\ o.poolseq[j] \in AllTxs) => ~DependsOn(o.poolseq[i], o.poolseq[j])
 TInit == EInit /\ l = 1 /\ div = NoDiv /\ taint = FALSE /\ devAll = {} /\ TLCSet(1, 1) /\ TLCSet(2, NoDiv) /\ TLCSet(3, {})
 
 (* R3 at engine level: the walks inside a push / a mining round / a tick re-admit rolled-back transactions in map order
@@ -22,7 +26,7 @@ Adopt(P) == /\ Set(ApplySeq(ChainSt, GoodOrder(P))) /\ pool' = P
             /\ UNCHANGED <<blk, n, ltip, ptr, irr, dev, applied, pruned, hist, insH, insB, todo, eres>>
 NoBlkE(ev) == \/ (Has(ev, "p") /\ ev.p \notin 1..n) \/ (Has(ev, "b") /\ ev.b \notin 1..n) \/ (Has(ev, "d") /\ ev.d \notin 1..n)
 Judge(ev, r) == IF taint THEN NoDiv
-                ELSE IF r = ev.res /\ Norm(ev.obs) = Obs THEN NoDiv
+                ELSE IF r = ev.res /\ Norm(ev.obs) = Obs /\ SeqOK(ev.obs) THEN NoDiv
                 ELSE [at |-> l, tr |-> ev.tr, op |-> ev.op, expres |-> r, actres |-> ev.res, exp |-> Obs, act |-> ev.obs, which |-> "engine"]
 (* simple operations: one action, judged one step later on the unprimed state (pending) *)
 VARIABLE pend      \* "" or the expected result of the line being judged
